@@ -55,11 +55,36 @@ fn check_diag(text: &str, line: &str, column: usize, display: &Result<String, St
 }
 
 /// Returns (C11 finding, C12 finding, accepted?, reference accepted?)
+/// the second public entry point (`IDL::from_string`, deprecated but exported): accepted / rejected, and the structure
+#[allow(deprecated)]
+fn run_real_from_string(text: &str) -> Result<Result<String, String>, String> {
+    guarded(|| match IDL::from_string(text) {
+        Ok(i) => Ok(canon_real(&i)),
+        Err(e) => Err(match e {
+            varlink_parser::Error::Parse { .. } => "parse".to_string(),
+            varlink_parser::Error::Idl(m) => format!("idl:{}", m),
+        }),
+    })
+}
+
 fn differential(text: &str) -> (Option<(String, String)>, Option<(String, String)>, bool, bool) {
     let real = run_real(text);
     let rf = parse_syntax(text);
     let mut f12 = None;
     let short = &text[..text.len().min(300)];
+    // both entry points must give the same verdict and the same structure
+    let second = run_real_from_string(text);
+    let agree = match (&real, &second) {
+        (RealOutcome::Accepted(c), Ok(Ok(c2))) => c == c2,
+        (RealOutcome::ParseErr { .. }, Ok(Err(e))) => e == "parse",
+        (RealOutcome::IdlErr(m), Ok(Err(e))) => *e == format!("idl:{}", m),
+        (RealOutcome::Panic(_), Err(_)) => true,
+        _ => false,
+    };
+    if !agree {
+        let f = Some(("entry-points-differ".to_string(), format!("{:?}: IDL::try_from gives {} but IDL::from_string gives {:?}", short, match &real { RealOutcome::Accepted(_) => "Ok".to_string(), RealOutcome::ParseErr { .. } => "a parse error".to_string(), RealOutcome::IdlErr(m) => format!("Idl({})", m), RealOutcome::Panic(p) => format!("a panic ({})", p) }, second.as_ref().map(|r| r.as_ref().map(|_| "Ok").map_err(|e| e.clone())))));
+        return (f, None, matches!(real, RealOutcome::Accepted(_)), rf.is_some());
+    }
     let f11 = match (&real, &rf) {
         (RealOutcome::Panic(p), _) => {
             f12 = Some(("C12/panic".to_string(), format!("parser panicked on {:?}: {}", short, p)));
@@ -212,7 +237,7 @@ fn tokenize(text: &str) -> Vec<String> {
 }
 
 fn c11_c12(args: &Args, prop: &'static str) -> ! {
-    let rule11 = "differential against a hand-written reference recogniser of the documented grammar: (1) every interface name of length<=8 (quick 7) over {a,B,1,-,.}; (2) every type expression of <=6 (quick 5) tokens over {[], [string], ?, int, T, (), (a), (a: int), (, )}; (3) every field/enum-member name of length<=6 (quick 5) over {a,A,1,_}; (4) every member-level token sequence of length<=7 (quick 5) over {method,type,error,Name,(,),->,a: int,comma,NL,comment,SP} after a valid header; (5) every trivia string {SP,TAB,NL,CRLF,CR,U+2028,comment} inserted at every token boundary of 6 valid texts, and every single-token deletion / duplication / adjacent swap of them; (6) all pairs and triples of members over kinds {method,type,error} with equal/distinct names; oracle: same accept/reject, equal canonical structure (names, kinds per-kind order, fields, types, docs), duplicate errors name exactly the duplicated names; non-trivial = distinct text";
+    let rule11 = "differential against a hand-written reference recogniser of the documented grammar: (1) every interface name of length<=8 (quick 7) over {a,B,1,-,.}; (2) every type expression of <=6 (quick 5) tokens over {[], [string], ?, int, T, (), (a), (a: int), (, )}; (3) every field/enum-member name of length<=6 (quick 5) over {a,A,1,_}; (4) every member-level token sequence of length<=7 (quick 5) over {method,type,error,Name,(,),->,a: int,comma,NL,comment,SP} after a valid header; (5) every trivia string {SP,TAB,NL,CRLF,CR,U+2028,comment} inserted at every token boundary of 6 valid texts, and every single-token deletion / duplication / adjacent swap of them; (6) all pairs and triples of members over kinds {method,type,error} with equal/distinct names; oracle (through IDL::try_from and, with identical verdict, through the deprecated IDL::from_string): same accept/reject, equal canonical structure (names, kinds per-kind order, fields, types, docs), duplicate errors name exactly the duplicated names; non-trivial = distinct text";
     let rule12 = "every input of the C11 enumerations that is rejected, plus every prefix of every corpus definition (*.varlink in the repository), every string of length<=5 (quick 4) over a 24-symbol alphabet covering each lexical class (CR, LF, U+2028, U+2029, U+00A0, a 4-byte char, #, keywords, brackets), a line-ending x error-position matrix, and type nesting depth 1..=200 for [], ?[], [string], structs and enums (on the main stack and on a 2 MiB thread): parsing returns (no panic), a Parse error's line is a line of the input and its column lies in 1..=chars(line)+1, every error renders with Display and the rendering contains the line; non-trivial = distinct rejected input";
     let mut rep = Report::new(prop, if prop == "C11" { rule11 } else { rule12 });
     let thorough = args.thorough();
